@@ -1,7 +1,9 @@
-\* EXPECTED TO FAIL: a curve point landing exactly on the start of the path underflows recalc's index
-\* (F-C03-3; zones 4 | 2 with the first zone 3 long). Used by the self-test only, never by the check.
+\* EXPECTED TO FAIL: with the original strict exit test (Variant = "pinned", before the F-C03-3 repair) a curve point
+\* landing exactly on the start of the path underflows recalc's index (zones 4 | 2 with the first zone 3 long).
+\* Used by the self-test only, never by the check.
 SPECIFICATION Spec
 CONSTANTS
+  Variant = "pinned"
   E = 0
   VPerO = 1
   MaxZ = 3
